@@ -1095,9 +1095,13 @@ def normalise(modname: str, tree: ast.AST, mutable_attrs: set[str] | None = None
     if consts:
         log["<module constants viewed at their uses>"] = {str(i): c for i, c in enumerate(consts)}
     try:
-        from .unmove import unmove
+        from .unmove import closures_to_partial, departial, unmove
 
-        moved = unmove(tree, ref)
+        moved = departial(tree, ref)
+        moved += unmove(tree, ref)
+        for q, fn in _defs(tree).items():
+            if ref.get(q) is not None:
+                moved += [f"{q}: {s}" for s in closures_to_partial(fn, ref[q])]
     except RecursionError:
         moved = []
     if moved:
